@@ -152,7 +152,7 @@ for f in (1, 2):
 
 # ---- C03 standard algorithms on view ranges (differential against plain arrays); libstdc++ large-range branches stubbed (dead for <= 16 elements)
 ALGO_STUBS = [r'__introsort_loop', r'__merge_adaptive', r'__merge_without_buffer', r'__stable_sort_adaptive', r'_Temporary_buffer', r'get_temporary_buffer', r'return_temporary_buffer']
-LIGHT = ['copy_move_backward', 'equal_lexicographical', 'fill_transform', 'find_count_queries', 'remove', 'reverse', 'swap_ranges', 'unique', 'partition', 'shift_right']
+LIGHT = ['copy_move_backward', 'equal_lexicographical', 'fill_transform', 'find_count_queries', 'remove', 'reverse', 'swap_ranges', 'unique', 'partition', 'shift_right', 'tail_subrange']
 PE03 = {'equal_lexicographical': dict(unwind=24)}   # std::equal on the plain reference array is a byte-wise memcmp
 U('C03', 'C03_algo.cpp', name='C03_1d_light', defines=dict(RANGE=1, NB=4, SB=3, MEMSZ2=12, VF_ROOT_CELLS=12), entries=LIGHT, unwind=7, timeout=900, heap=512, stubs=ALGO_STUBS, per_entry=PE03)
 U('C03', 'C03_algo.cpp', name='C03_1d_sort', defines=dict(RANGE=1, NB=3, SB=2, MEMSZ2=8, VF_ROOT_CELLS=8), entries=['sort'], unwind=6, timeout=900, heap=512, stubs=ALGO_STUBS)
